@@ -27,6 +27,13 @@ func (e *Error) updateFromTokenIfNeeded(template *Template, t *Token) *Error {
 		e.Template = template
 	}
 
+	if e.Sender != "fromfile" && e.Filename != "" && t != nil && t.Filename != "" && e.Filename != t.Filename {
+		// The error was raised within another template (e. g. while compiling
+		// an included template) and keeps its own location there; only a
+		// template which could not be loaded is reported at the referring tag.
+		return e
+	}
+
 	if e.Token == nil {
 		e.Token = t
 		if e.Line <= 0 {
